@@ -398,6 +398,64 @@ def run(rep):
         rep.lost("PAREN", "PAREN/anchor2", "function parser::parse")
     rep.floor("PAREN", 9)
 
+    # ---------------------------------------------------------------- T-NUD
+    rep.describe("T-NUD", "every Ok result of parse_nud is the node its leading token stands for: atom -> atom, int/flt/str/not( -> Cast with that modifier, `not ` -> Negate, all( -> Match(All, Identifier), of( -> Match(Of(n), Identifier)")
+    pn_ = F.fn("parser::parse_nud")
+    if pn_ is None:
+        rep.lost("T-NUD", "T-NUD/anchor", "parser::parse_nud")
+    else:
+        NUD = {("Float",): "Float", ("Identifier",): "Identifier", ("Integer",): "Integer", ("Miscellaneous", "Not"): "Negate",
+               ("Modifier", "Flt"): "Cast", ("Modifier", "Int"): "Cast", ("Modifier", "Not"): "Cast", ("Modifier", "Str"): "Cast",
+               ("Match", "All"): "Match", ("Match", "Of"): "Match"}
+        seen_nud = {}
+        for leaf, path in q.result_leaves(pn_.body):
+            l = peel(leaf)
+            if not adt_is(l, "Result", "Ok"):
+                continue
+            kinds = []
+            for e in q.context(path, leaf):
+                if e[0] == "arm":
+                    for alt in or_pats(e[1]):
+                        v = variant_of(alt)
+                        if v and v[0] in ("Token", "ModSym", "MiscSym", "MatchSym"):
+                            kinds.append(v[1])
+            tk_ = tuple(kinds[:2])
+            if tk_ not in NUD:
+                rep.bad("T-NUD", "T-NUD/unexpected/%s" % "-".join(tk_), l["sp"], "parse_nud answers Ok only for the ten token kinds that can start an expression", show(l)[:80])
+                continue
+            val = peel(l["fields"][0]["e"])
+            if val.get("k") == "Var":
+                r_ = q.resolve(pn_.body, val)
+                val = peel(r_) if r_ is not None else val
+            okv = val.get("k") == "Adt" and val.get("adt") == "parser::Expression" and val.get("variant") == NUD[tk_]
+            det = show(val)[:100]
+            if okv and NUD[tk_] == "Cast":
+                okv = show(val["fields"][1]["e"]) == "ModSym::" + tk_[1]
+            if okv and NUD[tk_] == "Match":
+                m0 = peel(val["fields"][0]["e"])
+                inner = peel(val["fields"][1]["e"])
+                inner = peel(inner["args"][0]) if inner.get("k") == "Call" and (inner.get("fn") or "").endswith("Box::<T>::new") else inner
+                if inner.get("k") == "Var":
+                    r_ = q.resolve(pn_.body, inner)
+                    inner = peel(r_) if r_ is not None else inner
+                def _is_ident(x):
+                    x = unblock(x)
+                    if x.get("k") == "Adt":
+                        return x.get("variant") == "Identifier" and x.get("adt") == "parser::Expression"
+                    if x.get("k") in ("Match", "If", "Block"):
+                        vals = [unblock(lf) for lf, pth in q.result_leaves(x) if not any(p_.get("k") == "Return" for p_ in pth)]
+                        vals = [v_ for v_ in vals if v_.get("k") != "Return"]
+                        return bool(vals) and all(v_.get("k") == "Adt" and v_.get("variant") == "Identifier" and v_.get("adt") == "parser::Expression" for v_ in vals)
+                    return False
+                okv = m0.get("k") == "Adt" and m0.get("variant") == tk_[1] and _is_ident(inner)
+            n_k = seen_nud.get(tk_, 0)
+            seen_nud[tk_] = n_k + 1
+            rep.check(okv, "T-NUD", "T-NUD/%s#%d" % ("-".join(tk_), n_k), l["sp"], "the %s token yields Expression::%s" % ("/".join(tk_), NUD[tk_]), det)
+        for tk_ in NUD:
+            if tk_ not in seen_nud:
+                rep.bad("T-NUD", "T-NUD/missing/%s" % "-".join(tk_), pn_.sp, "the %s token has an Ok result" % "/".join(tk_), "none found")
+    rep.floor("T-NUD", 10)
+
     # ---------------------------------------------------------------- T-KEYWORD
     rep.describe("T-KEYWORD", "each match_ahead literal maps to the specified token, ends in ' ' or '(', and the following it.nth(k) leaves exactly that last character unread (k == len-2); whitespace arm pushes nothing")
     tk = F.fn("<std::string::String as tokeniser::Tokeniser>::tokenise")
